@@ -46,7 +46,11 @@ def audit(ctx, s, t, case, matchings=None):
     from sqlglot.diff import diff, Insert, Remove, Move, Update, Keep
 
     fs, ft = canon.fingerprint(s), canon.fingerprint(t)
-    shared = s is t or bool({id(n) for n in s.walk()} & {id(n) for n in t.walk()})
+    s_nodes, t_nodes = list(s.walk()), list(t.walk())
+    # node objects shared between the inputs, or one object at two positions of one input: the library then works on copies,
+    # so the script is accounted by class multiset instead of by identity
+    shared = (s is t or bool({id(n) for n in s_nodes} & {id(n) for n in t_nodes})
+              or len({id(n) for n in s_nodes}) != len(s_nodes) or len({id(n) for n in t_nodes}) != len(t_nodes))
     try:
         full = diff(s, t, matchings=matchings, delta_only=False)
         delta = diff(s, t, matchings=matchings, delta_only=True)
@@ -251,6 +255,18 @@ def run_case(ctx, i):
         t = s
     elif kind in ("copy", "similar-leaves-copy"):
         t = s.copy()
+        if i % 3 == 0:
+            # the same (non-identifier) node object at two positions of the source, as transform() with a reused replacement
+            # produces: the diff must still account for both positions
+            from sqlglot import exp as _exp
+
+            leaves = [n for n in s.find_all(_exp.Literal)]
+            if len(leaves) >= 2:
+                shared = _exp.Literal.number(41)
+                s = s.transform(lambda n: shared if (n is leaves[0] or n is leaves[-1]) else n, copy=False)
+                t = s.copy()
+                case = dict(case, shared_node=True)
+                ctx.count("kind:shared-node-copy")
     elif kind == "matchings":
         matchings = [(s, t)] if type(s) is type(t) else None
     audit(ctx, s, t, case, matchings)
